@@ -2099,7 +2099,9 @@ def _is_json_serializable(item):
                 return False
         else:
             return True
-    if isinstance(item, (list, tuple, set)):
+    # tuples come back from json as lists and sets are not json types: both are
+    # pickled instead
+    if isinstance(item, list):
         for val in item:
             if not _is_json_serializable(val):
                 return False
